@@ -115,7 +115,6 @@ def install(w):
             result=E,
             # the kept properties are re-parented to the copy (Expression.set on a list): parent pointers may change, nothing else
             modifies=["*.parent"],
-            loops={0: {"invariant": ["is_list(other_props) and is_fresh(other_props)", "comment is None or exists(0, _k, lambda j: comment is arg(arg(seq_at(node_expressions(props), j), 'this'), 'this'))"]}},
             ensures={
                 # COMMENT ON TABLE t IS 'c': nothing is sent to DuckDB but the no-op, and (t, 'c') is recorded
                 "C09.extract.comment_on": f"implies(not isinstance(expression, exp.Create) and {CO}, is_fresh(result) and is_tuple({TC}) and seq_len({TC}) == 2 "
